@@ -8,7 +8,7 @@
    (C08_sprint_of_a_redactable_is_identity, C08_sprintf_...); under widths, inside containers
    and under wrappers it is decided by the correspondence and the black-box equalities. *)
 From Redact Require Import Bytes Tokens Utf8 Markers Buffer Ops BufInv LBuf Printer Api.
-From Redact Require Import TokensP MarkersP BufInvP BufContentP ComposeP RoutesP.
+From Redact Require Import TokensP MarkersP BufInvP BufContentP ComposeP RoutesP Forward FormatP ReprintAllP.
 Import List ListNotations.
 
 Theorem C08_raw_copy_partial : forall r, last_invalid r = false ->
@@ -48,6 +48,14 @@ Theorem C08_sprintf_of_a_redactable_is_identity : forall k env d r o, In d repri
   sprintf (S (S (S k))) env d [VRS r] = ROk o -> o_bytes o = r.
 Proof. exact sprintf_redactable_identity. Qed.
 Print Assumptions C08_sprintf_of_a_redactable_is_identity.
+
+(* ... and under EVERY directive MakeFormat can spell: all flag subsets (minus '-' with '0'),
+   widths 1..10^6, precisions 0..10^6, every ASCII-letter or non-ASCII verb other than %T and %p *)
+Theorem C08_sprintf_any_directive_is_identity : forall k env s v r o,
+  st_ok s -> verb_ok v -> v <> 84 -> v <> 112 -> last_invalid r = false ->
+  sprintf (S (S (S k))) env (snd (make_format s v)) [VRS r] = ROk o -> o_bytes o = r.
+Proof. exact sprintf_redactable_identity_all. Qed.
+Print Assumptions C08_sprintf_any_directive_is_identity.
 
 (* re-printing the result of any print call reproduces it *)
 Theorem C08_sprint_idempotent : forall fuel k env a o o', sprint fuel env a = ROk o -> last_invalid (o_bytes o) = false ->
